@@ -18,7 +18,7 @@ use util::Rng;
 
 fn run_line(prop: &str, args: &[&str]) -> String {
     match prop {
-        "C02" if args[0] == "hist" => sess::run12(args),
+        "C02" | "C19" if args[0] == "hist" || args[0] == "cand" => sess::run12(args),
         "C02" => e2e02::run(args),
         "C03" => meta::run03(args),
         "C04" => meta::run04(args),
@@ -43,6 +43,8 @@ fn gen(prop: &str, rng: &mut Rng, n: usize) -> Vec<String> {
             // end-to-end runs, then manager histories (the tie of the manager model that C02's T2/T3 are proved on)
             let mut v = e2e02::gen(rng, n);
             v.extend(sess::gen12(rng, n * 25));
+            // the connection bookkeeping around it (candidates, re-announce): model Swarm/Cand, theorems T5
+            v.extend(sess::gen_cand(rng, n * 5));
             v
         }
         "C03" => meta::gen03(rng, n),
@@ -156,6 +158,13 @@ fn main() {
             let seed: u64 = argv[3].parse().expect("seed");
             let n: usize = argv[4].parse().expect("count");
             let mut rng = Rng::new(seed);
+            if prop == "CAND" {
+                // connection bookkeeping histories only (development aid; the checks run them inside C02 and C19)
+                for a in sess::gen_cand(&mut rng, n) {
+                    emit(&mut out, "C02", &a);
+                }
+                return;
+            }
             for a in gen(prop, &mut rng, n) {
                 emit(&mut out, prop, &a);
             }
